@@ -227,6 +227,40 @@ def rule_c(ctx):
             return False
         okr = all(from_load(e) for e in rets)
         ctx.check(okr, rid, key + ":returns-load-result", "next returns the slot's report unchanged, or None at the end of the table", n0.span, [show(e) for e in rets])
+        # the scan actually looks at the slots: while the cursor is inside the table (the out-of-range outcome of every comparison of the cursor
+        # assumed away) a load is still reachable from entry — a negated loop condition ends every batch before its first slot
+        from ..conds import switch_edges
+        from .. import inline
+
+        def is_pos(e):
+            e = deep_strip(e)
+            while e[0] in ("cast", "deref", "ref"):
+                e = deep_strip(e[1])
+            return e[0] == "field" and e[2] == "position"
+        cut = set(); cmps = 0
+        for (b2, tgt, lab, exprs, t2) in switch_edges(n):
+            if n.blocks[b2].get("dead"):
+                continue
+            for e in exprs:
+                e = deep_strip(e)
+                if e[0] != "binop" or e[1] not in ("Lt", "Le", "Gt", "Ge", "Eq", "Ne"):
+                    continue
+                l_, r_ = is_pos(e[2]), is_pos(e[3])
+                if l_ == r_:
+                    continue
+                op = e[1] if l_ else {"Lt": "Gt", "Gt": "Lt", "Le": "Ge", "Ge": "Le"}.get(e[1], e[1])      # as seen from the cursor
+                in_range_when_true = op in ("Lt", "Le", "Ne")
+                val = int(lab[3:]) if lab.startswith("sw:") else None
+                is_true = (val is not None and val != 0) or (val is None and [v_ for v_, _ in t2["vals"]] == [0])
+                cmps += 1
+                if is_true != in_range_when_true:
+                    cut.add((b2, tgt))
+        if cut:
+            n2 = inline.assuming(F, n, cut)
+            live = cfg.reachable(n2, 0, unwind=False)
+            still = [b for b, _ in load_calls(F, n2) if b in live and not n2.blocks[b].get("dead")]
+            ctx.check(bool(still), rid, key + ":scans-inside-the-table", "with the cursor inside the table a slot load is reachable from entry", n0.span,
+                      {"cursor_comparisons": cmps})
 
 
 def mentions_call_arg(m, ce, call_bbs):
